@@ -197,11 +197,12 @@ type relay struct {
 	f        *recFault
 	other    *relay
 	// state
-	protected bool
-	nprot     int
-	prot      [][]byte // protected records seen (copies)
-	last      []byte
-	held      []byte
+	protected  bool
+	nprot      int
+	prot       [][]byte // protected records seen (copies)
+	ReplayDist int      // replay-earlier: how many records back the replayed one was
+	last       []byte
+	held       []byte
 	// what happened
 	Fired      bool
 	FiredOn    int // protected index of the first affected record as the receiver will count it
@@ -370,8 +371,10 @@ func (rl *relay) apply(rec []byte, idx int) bool {
 			return false
 		}
 		old := rl.prot[f.J%idx]
+		rl.ReplayDist = idx - f.J%idx
 		if f.JDist > 0 && f.JDist <= idx {
 			old = rl.prot[idx-f.JDist]
+			rl.ReplayDist = f.JDist
 		}
 		fire(idx)
 		rl.dst.Write(old)
@@ -697,6 +700,9 @@ func runAttack(c *simkit.Choice, r *simkit.Rec, a *attackSession, f *recFault, s
 		if a.Long {
 			r.Reach(idx(attackReach, "long-session"))
 		}
+		if rl.Fired && f.Kind == rfReplayOld && rl.ReplayDist >= 255 {
+			r.Reach(idx(attackReach, "replay-at-distance>=255"))
+		}
 		r.Reach(idx(attackReach, "nonce-audit"))
 		pi := 0
 		sum := 0
@@ -962,7 +968,7 @@ func sweepSessionSizes(ss int, a *attackSession) [2][]int {
 // is corrupted in exactly one byte; the gmtls server is the receiver.
 // Enumerated: run k -> (mode, padding length, corrupted position).
 
-var padAttackReach = []string{"pad-valid-delivered", "pad>=128-accepted", "pad-255-accepted", "bad-padding-byte-rejected", "bad-mac-rejected", "pad-gcm-control"}
+var padAttackReach = []string{"pad-valid-delivered", "pad>=128-accepted", "pad-255-accepted", "bad-padding-byte-rejected", "bad-mac-rejected"}
 
 func init() {
 	register(Family{Name: "tls-record-padding", Prop: "C07", ID: 703, Weight: 1, FaultNames: []string{"padding-length", "bad-padding-byte", "bad-mac"}, ReachNames: padAttackReach, Run: runRecordPadding, Enum: padEnum})
